@@ -26,7 +26,10 @@ def mutate(modname, qualname, old, new, count=1):
     src2 = src.replace(old, new, count)
     ns = {}
     glb = fn.__globals__
-    code = compile(src2, '<canary %s.%s>' % (modname, qualname), 'exec')
+    fname = '<canary %s.%s>' % (modname, qualname)
+    import linecache
+    linecache.cache[fname] = (len(src2), None, src2.splitlines(True), fname)
+    code = compile(src2, fname, 'exec')
     exec(code, glb, ns)
     newfn = ns[parts[-1]]
     if isinstance(orig, staticmethod):
